@@ -53,8 +53,18 @@ func VH_C15_routed() {
 	}
 	uid := "uid-1"
 	review := apixv1.ConversionReview{Request: &apixv1.ConversionRequest{UID: types.UID(uid), DesiredAPIVersion: "v2", Objects: []runtime.RawExtension{conversion.VObject("v1")}}}
+	// the request itself may be unusable: a review without a request, or a body that is not
+	// announced as JSON - no hook runs and no successful conversion is reported
+	reqShape := zz.Len("request_shape", 0, 2)
+	ctype := "application/json"
+	switch reqShape {
+	case 1:
+		review.Request = nil
+	case 2:
+		ctype = "text/plain"
+	}
 	req := &http.Request{Method: "POST", URL: &url.URL{Path: path}, Body: zzhttp.JSONBody(review),
-		Header: http.Header{"Content-Type": []string{"application/json"}}, ContentLength: 10}
+		Header: http.Header{"Content-Type": []string{ctype}}, ContentLength: 10}
 
 	converts := zz.Len("hook_converts", 0, 1) == 1
 	ran := 0
@@ -73,6 +83,13 @@ func VH_C15_routed() {
 
 	var out apixv1.ConversionReview
 	ok := sink.Decode(&out)
+	if reqShape != 0 {
+		zz.Assert(ran == 0, "no_hook_runs_for_an_unusable_request")
+		zz.Assert(!ok || out.Response == nil || out.Response.Result.Status != metav1.StatusSuccess, "unusable_request_is_not_a_success")
+		zz.Assert(sink.Status >= 400, "unusable_request_is_an_http_error")
+		zz.Reach("end")
+		return
+	}
 	zz.Assert(ok && out.Response != nil, "every_post_is_answered_with_a_review")
 	if !ok || out.Response == nil {
 		return
